@@ -4,6 +4,17 @@ from harness.drivers import fuse
 
 
 def run(ck):
+    # Machine.tla: TLC checks Impl |= Props on the bounded instance and exports programs (spec -> code)
+    from vlib import machine
+    from harness import gen as _gen
+    _tids = _gen.Tids(100000)
+    mprogs = []
+    mprogs += machine.run_machine(ck, "Z2", "abelian", "PoolZ2t", "OpsFuse", rank=3, depth=3, mod=40, tids=_tids)
+    if ck.tier != "quick":
+        mprogs += machine.run_machine(ck, "Z2", "fermionic", "PoolZ2t", "OpsFuse", rank=3, depth=3, mod=60, tids=_tids)
+    if ck.tier != "quick":
+        mprogs += machine.run_machine(ck, "U1", "fermionic", "PoolU1t", "OpsFuse", rank=3, depth=3, mod=200, tids=_tids)
+    ck.conform(mprogs)
     q = ck.tier == "quick"
     from harness import gen
     tids = gen.Tids()
